@@ -25,6 +25,7 @@ namespace ps {
 using pbt::Case; using pbt::Ctx;
 typedef Goldilocks::Element E;
 extern "C" void pbt_shim_config(int mode, uint64_t orderseed) __attribute__((weak));
+extern "C" void pbt_shim_cap(int cap) __attribute__((weak));
 extern "C" void pbt_shim_stats(uint64_t *regions, uint64_t *multi, uint64_t *maxteam, int reset) __attribute__((weak));
 static int g_mode = 0; // 0 sequential permuted orders (shim), 1 pthreads (shim, TSan), 2 real libgomp
 static std::string hx(uint64_t x) { char b[32]; snprintf(b, sizeof b, "0x%llx", (unsigned long long)x); return b; }
@@ -96,10 +97,15 @@ static bool body_par(const Case &c, Ctx &ctx)
     if (!why.empty()) return ctx.fail("single-member execution: " + why);
     if (pbt_shim_stats) pbt_shim_stats(nullptr, nullptr, nullptr, 1);
     config(orderseed);
+    // delivered team size: in 1 of 4 cases the runtime delivers fewer members than requested (cap derived from the order seed)
+    int cap = 0;
+    if (pbt_shim_cap && team > 1 && (orderseed >> 8) % 4 == 0 && orderseed > 1) { cap = 1 + (int)((orderseed >> 16) % (uint64_t)(team - 1)); pbt_shim_cap(cap); ctx.cls("team:fewer-members-delivered-than-requested"); }
     std::vector<uint64_t> got = run_routine(c, team, why, false);
+    if (pbt_shim_cap) pbt_shim_cap(0);
     if (!why.empty()) return ctx.fail("team of " + std::to_string(team) + ": " + why);
     uint64_t regions = 0, multi = 0, maxteam = 0;
     if (pbt_shim_stats) pbt_shim_stats(&regions, &multi, &maxteam, 0);
+    (void)cap;
     if (team > 1 && (multi > 0 || !pbt_shim_stats)) { ctx.nt(g_mode == 0 ? "team>1:sequential-permuted-order" : g_mode == 1 ? "team>1:pthreads(TSan)" : "team>1:real-libgomp"); }
     else ctx.cls("team=1-or-no-parallel-region");
     if (orderseed == 0) ctx.cls("order:identity"); else if (orderseed == 1) ctx.cls("order:reversed"); else ctx.cls("order:random-permutation");
